@@ -136,8 +136,16 @@ def rule_resolve(rep: Report, repo: Repo) -> None:
 def rule_start_labels(rep: Report, repo: Repo) -> None:
     rep.rule('C16.START-LABELS', 'macro start labels go through insert_label and only at addresses where no label sits', 1)
     f = repo.func(PRE, 'PreprocessorData.insert_macro_start_labels_if_their_address_not_used')
-    txt = norm(f).replace('\n', ' ')
-    ok = 'if address not in self.addresses_with_labels' in txt and 'self.insert_label(label, code_position, address=address)' in txt
+    # the loop body by forward substitution: insert_label is reached exactly on the paths where the address has no label yet
+    ok = False
+    loops = [n for n in ast.walk(f) if isinstance(n, ast.For)]
+    if len(loops) == 1:
+        outs = block_outcomes(loops[0].body, {}, 'start-labels:loop')
+        ins = [o for o in outs if any(e.startswith('self.insert_label(') for e in o.effects)]
+        skip = [o for o in outs if o not in ins]
+        ok = (bool(ins) and all('address not in self.addresses_with_labels' in o.conds
+                                and any(e == 'self.insert_label(label, code_position, address=address)' for e in o.effects) for o in ins)
+              and all('address in self.addresses_with_labels' in o.conds and not o.effects for o in skip))
     il = repo.func(PRE, 'PreprocessorData.insert_label')
     tracked = any(norm(s) == 'self.addresses_with_labels.add(address)' for s in il.body)
     fin = repo.func(PRE, 'PreprocessorData.finish')
